@@ -780,13 +780,13 @@ func main() {
 		return
 	}
 	r := gen.New(gen.Seed())
-	nseq := gen.Scale(150, 1500)
+	nseq := gen.Scale(100, 1500)
 	nops := gen.Scale(150, 250)
 	for i := 0; i < nseq; i++ {
 		runSequence(s, r, "mem", nops, i)
 		runSequence(s, r, "level", nops, i)
 	}
-	nb := gen.Scale(30, 200)
+	nb := gen.Scale(20, 200)
 	for i := 0; i < nb; i++ {
 		runSequence(s, r, "badger", nops, i)
 	}
